@@ -266,6 +266,8 @@ func oracleServe(c serveCase, o serveObs) []core.Failure {
 		if !hasKind(c.tree, 'e') {
 			fs = append(fs, fail("unexpected-outcome", "request path %q: %s without an i/o error in the tree", c.path, kindOf))
 		}
+	case "listing-unparsable":
+		fs = append(fs, fail("listing-body-is-not-one-listing", "request path %q (root %q): the browse response is not the JSON listing of one directory: %q", c.path, c.root, clip(o.body)))
 	default:
 		fs = append(fs, fail("unexpected-outcome", "request path %q: outcome %q", c.path, o.outcome))
 	}
